@@ -119,6 +119,17 @@ func guard(f func() Obs) (o Obs) {
 	return f()
 }
 
+// calm runs a boolean query of the library; a panic inside it is an answer ("panicked"), not the end
+// of the run
+func calm(f func() bool) (v bool, panicked string) {
+	defer func() {
+		if r := recover(); r != nil {
+			v, panicked = false, fmt.Sprintf("panic: %v", r)
+		}
+	}()
+	return f(), ""
+}
+
 // Case records one correspondence case: the model is run on (entry,args) and must
 // produce exactly the observation the implementation produced.
 // nontrivial: the case got past the first length/argument check (caller's judgement).
